@@ -221,6 +221,44 @@ func TestVerifC20(t *testing.T) {
 		cmp(a, b, l, "prefix-l")
 	}
 	r.EvalN("cmp:random-l<len", hk.N(20000, 200000))
+	// l beyond an integer width: 2^31+1 bytes (2^32+1 in the thorough tier). Both operands are windows of one
+	// untouched zero mapping; a single byte is written to make them differ at the last / first counted byte.
+	{
+		ls := []int{1<<31 + 1}
+		if hk.Thorough() {
+			ls = append(ls, 1<<32+1, 1<<32+1<<31+3)
+		}
+		for _, l := range ls {
+			z := hk.ZeroMap(l+4096+64, true)
+			if z == nil {
+				r.Inconclusive("c20: cannot map the giant operands")
+				break
+			}
+			a, b := z[0:l], z[4096:4096+l]
+			for _, pos := range []int{l - 1, 0} {
+				if pos == 0 && !hk.Thorough() && l > 1<<31+1 {
+					continue
+				}
+				z[4096+pos] = 1 // b[pos] = 1, a stays zero there (for pos < l-4096 the byte also belongs to a's tail region, beyond... see below)
+				want := -1
+				// a[pos+4096] aliases b[pos]; it lies inside a only if pos+4096 < l, and then at a LATER index than pos, so b > a is decided at pos
+				var got int
+				p, msg, _, _ := hk.Try(func() { got = ConstantTimeCmp(a, b, l) })
+				if p {
+					r.Violation("cmp-panics:giant-l", hk.D{"l": l, "differ_at": pos, "panic": msg})
+				} else if got != want {
+					r.Violation("cmp-wrong:giant-l", hk.D{"l": l, "differ_at": pos, "got": got, "want": want})
+				}
+				p, msg, _, _ = hk.Try(func() { got = ConstantTimeCmp(b, a, l) })
+				if p || got != 1 {
+					r.Violation("cmp-wrong:giant-l", hk.D{"l": l, "differ_at": pos, "swapped": true, "got": got, "want": 1, "panic": msg})
+				}
+				z[4096+pos] = 0
+				r.Eval(fmt.Sprintf("cmp:giant-l=2^%d+,differ-at-%s", bitlen(l)-1, map[bool]string{true: "start", false: "end"}[pos == 0]))
+			}
+			hk.Unmap(z)
+		}
+	}
 	r.Sample(hk.D{"kind": "ConstantTimeCmp", "a": "01" + "00", "b": "00ff", "l": 2})
 
 	// ---- DecomposeNAF(out, s, 257, w)
@@ -333,4 +371,12 @@ func min3(a, b int) int {
 		return a
 	}
 	return b
+}
+
+func bitlen(v int) int {
+	n := 0
+	for ; v > 0; v >>= 1 {
+		n++
+	}
+	return n
 }
